@@ -169,3 +169,13 @@ Definition chk_unitig (g : list node_t) : bool :=
   chk_maximal K stranded kjoin_of (graph_links K stranded g) g &&
   chk_payload_s g.
 End Payload.
+
+(* ---- THE assembly of a labelled read set (specification of every pipeline variant): the graph's k-mers and
+   links are exactly the retained k-mers and links of the reads (Layer S), its nodes are exactly the maximal unbranched
+   paths, and every node carries the payloads of its k-mers *)
+Definition assembly_of (K : nat) (stranded : bool) (thr mode : N) (lreads : list (dna * N)) (g : list node_t) : Prop :=
+  graph_exact K stranded thr (map fst lreads) g /\
+  unitig_graph K stranded mode (kmer_colour K stranded lreads) g /\
+  payload_ok K stranded mode rank (kmer_colour K stranded lreads) g.
+Definition chk_assembly (K : nat) (stranded : bool) (thr mode : N) (lreads : list (dna * N)) (g : list node_t) : bool :=
+  chk_graph_exact K stranded thr (map fst lreads) g && chk_unitig K stranded mode lreads g.
